@@ -186,14 +186,19 @@ func (srv *Server) Close() error {
 	// NOTE: the closing transition is guarded by the same mutex as the
 	// admission of new commands, the closer channel is closed exactly once and
 	// no command is admitted once the transition has been made.
+	verifPoint("close:enter")
 	srv.mu.Lock()
+	verifPoint("close:locked")
 	if !srv.closing.Load() {
 		srv.closing.Store(true)
+		verifPoint("close:stored")
 		close(srv.closer)
 	}
 	srv.mu.Unlock()
 
+	verifPoint("close:wait")
 	srv.wg.Wait()
+	verifPoint("close:return")
 	return nil
 }
 
@@ -201,13 +206,16 @@ func (srv *Server) Close() error {
 // increased by one for every admitted command, [sync.WaitGroup.Done] has to be
 // called once the command has been handled.
 func (srv *Server) admit() bool {
+	verifPoint("admit:enter")
 	srv.mu.Lock()
 	defer srv.mu.Unlock()
+	verifPoint("admit:locked")
 
 	if srv.closing.Load() {
 		return false
 	}
 
+	verifPoint("admit:checked")
 	srv.wg.Add(1)
 	return true
 }
